@@ -203,7 +203,7 @@ def run_unit(work, repo, name, src):
 
 def matrix(res, tier, repo):
     progs = programs(tier)
-    work = os.path.join(F.WORK, "c19")
+    work = os.path.join(F.WORK, "c19" + F.repo_suffix(repo))
     os.makedirs(work, exist_ok=True)
     negs = [p for p in progs if p[1] == "neg"]
     poss = [p for p in progs if p[1] == "pos"]
